@@ -3,7 +3,6 @@ import Proofs.ExefsProofs
 import Proofs.TmdLemmas
 namespace Pyctr
 namespace Sd
-open Romfs (Str)
 
 theorem toLE_readLE (b : Bytes) : toLE b.length (readLE b) = b := by
   induction b with
@@ -53,6 +52,28 @@ theorem sdKey_lengths (data : Bytes) :
       sdKeyOf data = .error (.other "BadMovableSedError")) := by
   refine ⟨fun h => by simp [sdKeyOf, h], fun h => ?_, fun h1 h2 h3 => by simp [sdKeyOf, h1, h2, h3]⟩
   rcases h with h | h <;> simp [sdKeyOf, h]
+
+/-- inside the alias guard: the counter is that of the rewritten path `/title/<p[12:20]>/<p[20:28]>/data<p[28:]>` -/
+theorem sdIv_alias (lower : Str → Str) (H : Bytes → Bytes) (p : Str)
+    (h : (startsWith (fwd (lower p)) strBackup && (fwd (lower p)).length > 28) = true) :
+    sdIv lower H p = ivOfNormalised H (strTitle ++ ((fwd (lower p)).drop 12).take 8 ++ [0x2F] ++ ((fwd (lower p)).drop 20).take 8 ++
+      strData ++ (fwd (lower p)).drop 28) := by
+  simp [sdIv, remap, h]
+
+/-- the rewritten path is a different string (it starts with "/t", the original with "/b") -/
+theorem remap_ne (q : Str) (h : (startsWith q strBackup && q.length > 28) = true) : remap q ≠ q := by
+  simp only [Bool.and_eq_true, decide_eq_true_eq] at h
+  obtain ⟨h1, h2⟩ := h
+  unfold remap
+  rw [if_pos (by simp [h1, h2])]
+  intro hc
+  have := congrArg (fun l => l[1]?) hc
+  unfold startsWith at h1
+  have hq : q[1]? = some 0x62 := by
+    have := congrArg (fun l => l[1]?) (beq_iff_eq.mp h1)
+    simp [strBackup, List.getElem?_take] at this
+    exact this
+  simp [strTitle, hq] at this
 
 end Sd
 end Pyctr
